@@ -64,6 +64,53 @@ Definition obs_eqb (x y : page_obs) : bool :=
 Fixpoint obsl_eqb (x y : list page_obs) : bool :=
   match x, y with [], [] => true | a :: r, b :: s => obs_eqb a b && obsl_eqb r s | _, _ => false end.
 
+(* ---- the reference "one rule per selector" (css-page-3: `@page A, B { body }` means `@page A { body }
+   @page B { body }`), written without the dictionary fold and without the code's matching function: every
+   (selector of a list, declaration of the body) pair is a candidate, candidates whose selector matches the
+   page (match_spec_b) compete by (origin/importance, specificity), the last of the maximal ones wins ---- *)
+Definition rule_candidates (r : drule) : list (selector * spec3 * option string * decl) :=
+  let '(sels, ds, mds) := r in
+  let parsed := map (fun s => parse_selector (fst s) (snd s)) sels in
+  if forallb (fun p => match p with Some _ => true | None => false end) parsed then
+    flat_map (fun p => match p with
+                       | Some (sel, sp) =>
+                           map (fun d => (sel, sp, None, d)) ds ++ map (fun d => (sel, sp, Some "@top-left", d)) mds
+                       | None => []
+                       end) parsed
+  else [].
+
+Definition spec_winner (rules : list drule) (pt : page_type) (k : key) : option (Z * weight) :=
+  winner_spec
+    (flat_map (fun c : selector * spec3 * option string * decl =>
+                 let '(sel, sp, pseudo_type, (name, v, imp)) := c in
+                 if match_spec_b sel pt && key_eqb k (pseudo_type, name) then [(v, (precedence Author imp, sp))] else [])
+              (flat_map rule_candidates rules)).
+
+Definition spec_val (rules : list drule) (pt : page_type) (k : key) (default : Z) : Z :=
+  match spec_winner rules pt k with Some (v, _) => v | None => default end.
+
+Fixpoint doc_spec (rules : list drule) (defaults : Z * Z) (v : option Z) (pts : list page_type) : list page_obs :=
+  match pts with
+  | [] => []
+  | pt :: r =>
+      let cs := mkCS (decode_ops (spec_winner rules pt (None, "counter_set")))
+                     (decode_ops (spec_winner rules pt (None, "counter_reset")))
+                     (decode_ops (spec_winner rules pt (None, "counter_increment"))) in
+      let v' := update_page_counter v (standardize cs true) in
+      (spec_val rules pt (None, "margin_left") (fst defaults), spec_val rules pt (None, "margin_right") (snd defaults),
+       spec_val rules pt (Some "@top-left", "content") 0, v') :: doc_spec rules defaults v' r
+  end.
+
+(* bit 0: model (preprocess_stylesheet entries + add_page_declarations + page counter) <> implementation;
+   bit 1: the implementation's pages are not what the reference "one rule per selector" gives *)
 Definition doc_judge (c : list drule * (Z * Z) * list page_type * list page_obs) : nat :=
   let '(rules, defaults, pts, out) := c in
-  if obsl_eqb (doc_model (doc_sheets rules) defaults None pts) out then 0%nat else 1%nat.
+  ((if obsl_eqb (doc_model (doc_sheets rules) defaults None pts) out then 0 else 1) +
+   (if obsl_eqb (doc_spec rules defaults None pts) out then 0 else 2))%nat.
+
+(* index of the first page on which the reference and the implementation differ (for the report) *)
+Fixpoint first_diff (x y : list page_obs) (i : nat) : nat :=
+  match x, y with
+  | a :: r, b :: s => if obs_eqb a b then first_diff r s (S i) else i
+  | _, _ => i
+  end.
